@@ -18,6 +18,12 @@ def check (l : List V) : List Run → List ObsRun → Nat → Bool × String
   | _, _, _ => (true, "")
 
 def handle (c obs : String) : String × Bool × String :=
+  if isSpecOnly c then
+    -- reusable sources / operators outside the model (FromIterator, FromMap*, FlatMap, Peek): the harness compares every
+    -- fault-free materialisation of the history with a fresh stream value of the same description (Go vs Go)
+    let ok := (obs.splitOn "rematerialise=ok").length > 1
+    (obs, ok, if ok then "" else "spec-only: a materialisation differs from a fresh stream value: " ++ ((obs.splitOn "rematerialise=").getLast?.getD ""))
+  else
   match parseCase c with
   | none => ("bad-case", false, "unparsable case")
   | some (p, rs) =>
